@@ -3,6 +3,8 @@
 
 #pragma once
 
+#include <memory>
+
 #include "../../common.h"
 // enkiTS
 #include "enkiTS/TaskScheduler.h"
@@ -53,21 +55,35 @@ namespace rkcommon {
         waitInternal(&task);
       }
 
+      // The scheduler still updates a task's running count after
+      // ExecuteRange() returns, so a heap-allocated task must not delete itself
+      // in there. It is parked here instead and freed when the calling thread
+      // retires its next task (the scheduler is done with it by then) or exits.
+      inline void retireTask(Task *task)
+      {
+        static thread_local std::unique_ptr<Task> retired;
+        retired.reset(task);
+      }
+
       template <typename TASK_T>
       inline void schedule_internal(TASK_T &&fcn)
       {
         struct LocalTask : public Task
         {
-          TASK_T t;
+          std::unique_ptr<TASK_T> t;
 
-          LocalTask(TASK_T &&fcn) : Task(1), t(std::forward<TASK_T>(fcn)) {}
+          LocalTask(TASK_T &&fcn)
+              : Task(1), t(new TASK_T(std::forward<TASK_T>(fcn)))
+          {
+          }
 
           ~LocalTask() override = default;
 
           void ExecuteRange(enki::TaskSetPartition, uint32_t) override
           {
-            t();
-            delete this;
+            (*t)();
+            t.reset();  // destroy the closure (and what it owns) right away
+            retireTask(this);
           }
         };
 
